@@ -202,6 +202,15 @@ def run(rep):
                 compare_built(rep, msg, v["bytes"], f"vector {k} built by append-then-pop", dict(replay, variant=-1 - k))
             except BaseException as e:
                 rep.violation(f"append-then-pop build of in-domain content raised {type(e).__name__}: {e}", dict(replay, variant=-1 - k))
+        # sixth build path: the content replaces an earlier one with repeated names (avps setter / cleanup + extend)
+        if m["avps"] and not any(r["replay"].get("variant") == k for r in rep.violations[-2:]):
+            try:
+                with guard(10, "build"):
+                    msg = wirex.build_msg_replace(m, byname, k)
+                compare_built(rep, msg, v["bytes"], f"vector {k}: content set over an earlier one with repeated names ({'cleanup + extend' if k % 2 else 'avps setter'})",
+                              dict(replay, variant=k, clone="replace"))
+            except BaseException as e:
+                rep.violation(f"replacing the AVP list with in-domain content raised {type(e).__name__}: {e}", dict(replay, variant=k, clone="replace"))
         if len(rep.violations) >= 40:
             break
     rep.sample({"vector": {"content": vecs[len(vecs) // 2]["m"], "bytes": bytes(vecs[len(vecs) // 2]["bytes"]).hex()}})
@@ -312,7 +321,10 @@ def replay(rep, path):
         mm = {"h": m["h"], "avps": [tl(a) for a in m["avps"]]}
         vec, res = vectors.gen("Gen_replay", ["Wire"], f"V == <<[bytes |-> EncMsg({T(mm)})]>>", "V")
         rep.tlc("Gen_replay", res)
-        msg = wirex.build_msg(m, byname, r["variant"]) if r["variant"] >= 0 else wirex.build_msg_gs(m, byname, -1 - r["variant"])
+        if r.get("clone") == "replace":
+            msg = wirex.build_msg_replace(m, byname, r["variant"])
+        else:
+            msg = wirex.build_msg(m, byname, r["variant"]) if r["variant"] >= 0 else wirex.build_msg_gs(m, byname, -1 - r["variant"])
         rep.case(str(r)[:80])
         compare_built(rep, msg, vec[0]["bytes"], "replayed vector", r)
     else:
